@@ -37,7 +37,7 @@ func (c *vCountConsume) OnConsume(m *ConsumerMessage) {
 // C18 (producer): each interceptor runs exactly once per submitted message, in configuration
 // order, never for retried messages or internal markers; a panicking one is contained.
 func vC18Producer(mode int) {
-	c := vProdScenario(mode)
+	c := vProdScenarioSized(mode, vTier() > 0 && mode == 0) // the schedule variant keeps the small sizes (x chain x panic choices)
 	var order []int
 	chainLen := 1 + vChoose("chain", 2)
 	var chain []*vCountSend
